@@ -409,7 +409,10 @@ FamForge ==
   \cup { ScenF(IF pos = 1 THEN <<fm>> \o rest ELSE rest \o <<fm>>, "VerifyOnly", NoSkew, FALSE, <<Kind(8, 1, "v1")>>) :
           fm \in { [Member(8, 1, 1, 1, "mid", vs, 1, "none", ps, 1, 0, 0, "chacha") EXCEPT !.wit = [kind |-> "forge", j |-> 0]] :
                      vs \in {"mid", "over"}, ps \in {"none", "lt", "over", "umax"} },
-          rest \in { <<Kind(8, 1, "v1")>>, <<Kind(8, 1, "v1"), Kind(8, 1, "v1s")>> }, pos \in {1, 2} }
+          \* ... and next to LARGER (aggregated) members, before or after them: every member's promises are judged, not only
+          \* those of the members that are at least as large as their predecessors
+          rest \in { <<Kind(8, 1, "v1")>>, <<Kind(8, 1, "v1"), Kind(8, 1, "v1s")>>, <<Kind(8, 1, "v2")>>,
+                     <<Kind(8, 1, "v2"), Kind(8, 1, "v1")>>, <<Kind(8, 1, "v1"), Kind(8, 1, "v2")>> }, pos \in {1, 2} }
 
 (***************************************************************************************************)
 (* long (C03, C09, C10): batches of 21-40 members (many model chunks) mixing aggregated members,      *)
